@@ -3,5 +3,7 @@
 P=$1; shift
 git -C /repo apply $P || { echo "patch does not apply to /repo"; exit 1; }
 cd /verif
+rm -rf /tmp/evidence.bak && cp -r /verif/evidence /tmp/evidence.bak
 for p in "$@"; do ./check $p quick 2>&1 | grep -E "^(VIOLATION|OK|UNDECIDED|FAILED|KNOWN)" | head -8; done
 git -C /repo checkout -- .
+rm -rf /verif/evidence && cp -r /tmp/evidence.bak /verif/evidence
